@@ -14,6 +14,7 @@
 #include "fixture.h"
 #include "qxv.h"
 
+#include "QXmppAccountMigrationManager.h"
 #include "QXmppArchiveManager.h"
 #include "QXmppAtmManager.h"
 #include "QXmppAtmTrustMemoryStorage.h"
@@ -30,6 +31,7 @@
 #include "QXmppEntityTimeIq.h"
 #include "QXmppEntityTimeManager.h"
 #include "QXmppExternalServiceDiscoveryManager.h"
+#include "QXmppFileSharingManager.h"
 #include "QXmppHttpUploadIq.h"
 #include "QXmppHttpUploadManager.h"
 #include "QXmppIbbIq.h"
@@ -257,7 +259,7 @@ QXmppAtmTrustMemoryStorage *installAll(TestClient &c, bool reversed)
           << new QXmppAttentionManager << new QXmppCallInviteManager << new QXmppJingleMessageInitiationManager
           << new QXmppMessageReceiptManager << new QXmppExternalServiceDiscoveryManager << new QXmppHttpUploadManager
           << new QXmppUserLocationManager << new QXmppUserTuneManager << new QXmppMixManager << new QXmppMovedManager
-          << new Dummy;
+          << new QXmppAccountMigrationManager << new QXmppFileSharingManager << new Dummy;
     auto *storage = new QXmppAtmTrustMemoryStorage;
     extra << new QXmppAtmManager(storage);
     if (!reversed) {
